@@ -44,9 +44,43 @@ def _show_data(d):
     return "none" if d is None else hx(bytes(d))
 
 
+def _foreign_dialect():
+    """build and use a second ScriptStreamer of ANOTHER dialect in this process (a user-defined script language: other
+    constants, direct pushes only up to 40 bytes, opcode 76 with a TWO-byte length): instances must not share tables"""
+    import struct
+    from pycoin.vm.ScriptStreamer import ScriptStreamer
+
+    def dec(fmt):
+        n = struct.calcsize(fmt)
+
+        def f(script, pc):
+            pc += 1
+            try:
+                size = struct.unpack(fmt, script[pc:pc + n])[0]
+            except Exception:  # noqa: BLE001
+                return None, pc
+            return size, pc + n
+        return f
+    consts = [("OP_%d" % i, bytes([i + 100])) for i in range(1, 5)]
+    sized = [("OP_PUSH_%d" % i, i) for i in range(1, 41)]
+    var = [("OP_PUSHDATA1", (1 << 16) - 1, lambda d: struct.pack("<H", d), dec("<H"))]
+    lookup = dict([("OP_%d" % i, 0x51 + i) for i in range(1, 5)] + [("OP_PUSH_%d" % i, i) for i in range(1, 41)] + [("OP_PUSHDATA1", 76)])
+    st = ScriptStreamer(consts, sized, var, lookup, lambda msg: None)
+    blob = st.compile_push_data(b"\x07" * 300) + st.compile_push_data(b"\x65") + st.compile_push_data(b"ab")
+    pc = 0
+    while pc < len(blob):
+        _o, _d, pc, _ok = st.get_opcode(blob, pc, verify_minimal_data=True)
+
+
 def impl(op: str) -> str:
     a = op.split(" ")
     k = a[0]
+    if k == "dialect_then":
+        try:
+            _foreign_dialect()
+        except Exception as e:  # noqa: BLE001
+            return "bad-op foreign dialect could not be built: " + type(e).__name__
+        return impl(op.split(" ", 1)[1])
     try:
         if k == "numenc":
             return "ok " + hx(IntStreamer.int_to_script_bytes(int(a[1])))
@@ -242,6 +276,8 @@ def _minimal_instr(s, pc):
 def oracle(op: str, out: str):
     a = op.split(" ")
     k = a[0]
+    if k == "dialect_then":
+        return oracle(op.split(" ", 1)[1], out)
     if k == "numenc":
         v = int(a[1])
         if not out.startswith("ok "):
@@ -369,12 +405,18 @@ def oracle(op: str, out: str):
 
 def trivial(op: str) -> bool:
     a = op.split(" ")
+    if a[0] == "dialect_then":
+        a = a[1:]
     return (a[0] in ("push", "compile", "disasm") and a[1] in ("~", "-")) or (a[0] in ("getop", "ops") and a[1] == "-")
 
 
 def neighbours(op, rng):
     a = op.split(" ")
     k = a[0]
+    if k == "dialect_then":
+        for o in neighbours(op.split(" ", 1)[1], rng):
+            yield "dialect_then " + o
+        return
     if k == "numenc":
         v = int(a[1])
         for d in (-2, -1, 0, 1, 2):
@@ -665,3 +707,19 @@ def gen(ctx, emit):
         emit("compile " + tx(rng.choice([" ", " ", "\t", "\n", "  "]).join(toks)))
     for _ in range(ctx.n(1000, 20000)):  # disassembly text of clean scripts, recompiled
         emit("compile " + tx(ref_disasm(clean_script())))
+
+    # ---- a second ScriptStreamer of another dialect is built and used in this process, then the Bitcoin streamer is asked
+    # again (instances must not share encoder/decoder tables); last, so that everything above ran on the untouched state
+    for n in (0, 1, 2, 40, 41, 75, 76, 77, 255, 256, 300, 65535, 65536):
+        d = rb(n)
+        emit("dialect_then push %s" % hx(d), "second-streamer")
+    for blob in (b"\x00", b"\x01\x07", b"\x4c\x01\x07", b"\x4c\x4c" + b"\x09" * 76, b"\x4d\x00\x01" + b"\x09" * 256, b"\x29" + b"\x05" * 41,
+                 b"\x4e\x00\x00\x01\x00" + b"\x09" * 65536, b"\x51", b"\x52\x60", b"\x4f", b"\x4c\x02\x01", b"\x4d\x05"):
+        for m in (0, 1):
+            emit("dialect_then getop %s 0 %d" % (hx(blob), m), "second-streamer")
+            emit("dialect_then ops %s %d" % (hx(blob), m), "second-streamer")
+        emit("dialect_then disasm %s" % hx(blob), "second-streamer")
+    for _ in range(ctx.n(30, 600)):
+        sc = clean_script()
+        emit("dialect_then disasm %s" % hx(sc), "second-streamer")
+        emit("dialect_then compile " + tx(ref_disasm(sc)), "second-streamer")
